@@ -651,7 +651,10 @@ def gen_varmodelN(rng, mode):
         ao = rng.sample(axes, rng.randint(1, naxes))
     elif ao == "extra":
         ao = rng.sample(axes + ["ZZZZ"], rng.randint(1, naxes + 1))
-    values = [rng.choice([0, 10, -20, 100, 7, 33, 250, -4, 512, -96]) for _ in locs]
+    pool = [0, 10, -20, 100, 7, 33, 250, -4, 512, -96]
+    if rng.random() < 0.4:                                    # anchors / kerning may be x.5, x.25: the rounding of deltas is visible
+        pool = pool + [12.5, -7.5, 0.25, 33.75, -0.5, 101.5]
+    values = [rng.choice(pool) for _ in locs]
     atgrid = [-1.0, -0.75, -0.5, -0.25, 0.0, 0.125, 0.25, 0.5, 0.625, 0.75, 1.0]
     at = []
     for _ in range(4):
@@ -754,14 +757,18 @@ def run_varmodelN(it):
            "at": [_nloc(l) for l in ats], "tol": rat(0) if it["exact"] else "1/1000000000"}
 
     def observe(m, floatm):
+        from fontTools.misc.roundTools import otRound
         deltas = floatm.getDeltas(it["values"])
+        rdeltas = floatm.getDeltas(it["values"], round=otRound)
         return {"order": [_nloc(l) for l in m.locations],
                 "supports": [[[a, [rat(x) for x in t]] for a, t in s.items()] for s in m.supports],
                 "reverseMapping": list(m.reverseMapping),
                 "deltas": [rat(d) for d in deltas],
                 "interp": [rat(floatm.interpolateFromDeltas(x, deltas)) for x in ats],
                 "atMasters": [rat(floatm.interpolateFromDeltas(x, deltas)) for x in locs],
-                "fromMasters": [rat(floatm.interpolateFromMasters(x, it["values"])) for x in locs]}
+                "fromMasters": [rat(floatm.interpolateFromMasters(x, it["values"])) for x in locs],
+                "roundedDeltas": [rat(d) for d in rdeltas],
+                "roundedAtMasters": [rat(floatm.interpolateFromDeltas(x, rdeltas)) for x in locs]}
     try:
         m = VariationModel(locs, axisOrder=ao)
         obs = observe(m, m)
@@ -1108,8 +1115,16 @@ def agree(req, rep):
             return False
         tol = Fraction(req["in"]["tol"])
         close = lambda a, b: len(a) == len(b) and all(abs(Fraction(x) - Fraction(y)) <= tol for x, y in zip(a, b))
-        return close(m["deltas"], o["deltas"]) and close(m["interp"], o["interp"]) and close(m["atMasters"], o["atMasters"]) \
-            and close(m["atMasters"], o["fromMasters"])
+        if not (close(m["deltas"], o["deltas"]) and close(m["interp"], o["interp"]) and close(m["atMasters"], o["atMasters"])
+                and close(m["atMasters"], o["fromMasters"])):
+            return False
+        # getDeltas(values, round=otRound): integers, compared exactly (on the half grid doubles are exact; elsewhere a value
+        # within 1e-9 of x.5 may round the other way in doubles - then the integer lists legitimately differ and only the
+        # numbers read back are compared, within 1)
+        if tol == 0 or m["roundedDeltas"] == o["roundedDeltas"]:
+            return m["roundedDeltas"] == o["roundedDeltas"] and close(m["roundedAtMasters"], o["roundedAtMasters"])
+        near = lambda a, b: len(a) == len(b) and all(abs(Fraction(x) - Fraction(y)) <= 1 for x, y in zip(a, b))
+        return near(m["roundedAtMasters"], o["roundedAtMasters"])
     if op == "varmodel":
         if m["order"] != o["order"] or m["supports"] != o["supports"]:
             return False
